@@ -323,29 +323,10 @@ def run(ctx, env):
             ctx.ob("R13.2", P["fn"], "records-in-order", not bad, "reordering/filtering calls below the conversion: %s" % bad)
             ctx.ob("R13.2", P["fn"], "version", v[0] == "field" and v[2] == "version", canon(v)[:100])
             ctx.ob("R13.2", P["fn"], "timestamp", ts[0] == "field" and ts[2] == P["timestamp"], canon(ts)[:100])
-    # R13.4
-    for dec, label in (("variable_versions::v9::FieldParser::parse_data_field", "v9"), ("variable_versions::ipfix::FieldParser::parse", "ipfix")):
-        hits = []
-        for p, b in prog.bodies.items():
-            if not (p == dec or p.startswith(dec + "::")):
-                continue
-            loops = b.sccs()
-            loopblocks = set(x for c in loops for x in c)
-            news = [blk for blk, t, c in b.calls() if c is not None and c.npath == "std::collections::BTreeMap::new"]
-            ins = [blk for blk, t, c in b.calls() if c is not None and c.npath == "std::collections::BTreeMap::insert"]
-            if not ins:
-                continue
-            is_rep_closure = bool(re.search(r"\{closure#\d+\}$", p))
-            for ib in ins:
-                # the map is created once per record iff its `new` is not at the same repetition level as the insert
-                same_level = [nb for nb in news if (nb in loopblocks) == (ib in loopblocks) and (is_rep_closure or ib in loopblocks)]
-                hits.append((p, b.line(ib), not same_level))
-        if not hits:
-            ctx.ob("R13.4", dec, "record-map", False, "no BTreeMap::insert found in the record decoder (unrecognised shape)")
-        for p, st, ok in hits:
-            ctx.ob("R13.4", p, "one-map-per-record:%s" % label, ok,
-                   "the per-record map is created outside the per-field repetition" if ok else "a fresh map is created for every field (same repetition level as the insert): the decoder yields one single-entry map per field, so the common view reports one 'flow' per field",
-                   site=st)
+    # R13.4 (form-independent, see records.py)
+    from . import records
+    records.one_map_per_record_rule(ctx, prog, an, "R13.4", "variable_versions::v9::Data::parse_be", "v9")
+    records.one_map_per_record_rule(ctx, prog, an, "R13.4", "variable_versions::ipfix::Data::parse_be", "ipfix")
     # R13.5
     tb = prog.impl_fn("netflow_common::NetflowCommon", "TryFrom<&NetflowPacket>", "try_from")
     if ctx.anchor("R13.5", "TryFrom<&NetflowPacket>", tb):
